@@ -7,7 +7,9 @@ META = {
             'the generation it carries, provider generations never decrease, at most one of the requests carrying the same '
             '(provider, generation) succeeds; the programs are tied to the code by running every interleaving of request '
             'pairs on the real application under a transaction-granular scheduler and comparing transaction traces, '
-            'statuses and final tables with the model.',
+            'statuses and final tables with the model (incl. directed shapes: a write over two providers with the contended one listed '
+            'second, an emptying reshape against a guarded change).  The control flow of the server-side retry loop of replace_all is '
+            'TRANSLATED from its AST (Gen.replaceAllLoop): it returns normally only after a successful attempt.',
     'level_note': 'trusted: Lean kernel; scheduler = serializable DBMS at transaction granularity (as the property states); '
                   'correspondence enumerates schedules of pairs exhaustively (canonical up to commuting reads), triples sampled.',
     'technique': 'Lean 4 proof (invariant over all schedules) + exhaustive interleaving correspondence on the real code',
